@@ -46,6 +46,26 @@ func c12GobFingerprint(x ap.Item, b []byte, err error) string {
 	return fmt.Sprintf("%d bytes (not decodable)", len(b))
 }
 
+// c12RepeatRecipients names one addressee in to and again, in front of another entry, in cc and bcc of every node that has them.
+func c12RepeatRecipients(x ap.Item) {
+	n := 0
+	vocab.Walk(x, 0, func(path string, depth int, node reflect.Value) {
+		to, cc, bcc := node.FieldByName("To"), node.FieldByName("CC"), node.FieldByName("BCC")
+		if !node.CanSet() || !to.IsValid() || !cc.IsValid() || !bcc.IsValid() || n >= 4 {
+			return
+		}
+		n++
+		who := ap.IRI(fmt.Sprintf("https://example.com/repeated/%d", n))
+		prepend := func(f reflect.Value, more ...ap.Item) {
+			l := append(append(ap.ItemCollection{}, more...), f.Interface().(ap.ItemCollection)...)
+			f.Set(reflect.ValueOf(l))
+		}
+		prepend(to, who, ap.IRI(fmt.Sprintf("https://example.com/only-to/%d", n)))
+		prepend(cc, who, ap.IRI(fmt.Sprintf("https://example.com/only-cc/%d", n)))
+		prepend(bcc, &ap.Actor{ID: who, Type: ap.PersonType}, ap.IRI(fmt.Sprintf("https://example.com/only-bcc/%d", n)))
+	})
+}
+
 // c12Twin is a deep copy of x with every language list and every item list of every node in reverse order.
 func c12Twin(x ap.Item) ap.Item {
 	y := vocab.CloneItem(x)
@@ -334,6 +354,11 @@ var c12Gen = rapid.Custom(func(t *rapid.T) ap.Item {
 			x = append(ap.ItemCollection{ap.NilIRI}, l...)
 		}
 	}
+	// now and then one addressee is named twice, in to and in cc, in front of other entries: the state in which the de-duplicating
+	// helpers have something to remove - which the read-only operations must not do for them
+	if rapid.IntRange(0, 2).Draw(t, "plant-repeated-recipients") == 0 {
+		c12RepeatRecipients(x)
+	}
 	// a value that came out of the decoder (it may still share memory with whatever the decoder used): a later decode of an unrelated
 	// document, one of the operations below, must not change it
 	if rapid.IntRange(0, 3).Draw(t, "from-decoder") == 0 {
@@ -463,6 +488,9 @@ func c12ConcurrentValue(i int, seed int) ap.Item {
 				f.Set(reflect.ValueOf(ap.NaturalLanguageValues{{Ref: "en", Value: ap.Content("bell\x07 and unit\x1fseparator")}, {Ref: "fr", Value: ap.Content("\x01\x02\x03")}}))
 			}
 			sv.FieldByName("Name").Set(reflect.ValueOf(ap.DefaultNaturalLanguageValue("name with \x1e and \x04")))
+		}
+		if i%3 == 1 {
+			c12RepeatRecipients(x)
 		}
 		c12Spare(x)
 		return x
